@@ -353,9 +353,12 @@ fn check_spheres(sph: &[(DVec3, f64)]) -> Result<(), String> {
     if !(rad.is_finite() && c.is_finite()) {
         return Err(format!("sphere of spheres not finite: center={:?} radius={}", c, rad));
     }
+    // same tolerance as for points: relative on the radius, plus the rounding of the
+    // coordinates themselves (a few ulps of the largest coordinate)
+    let scale = sph.iter().fold(1.0f64, |m, (sc, sr)| m.max(sc.abs().max_element()).max(*sr));
     for (i, (sc, sr)) in sph.iter().enumerate() {
         let d = sc.distance(c) + sr;
-        if d > rad * (1.0 + CONTAIN_TOL) + 1e-13 {
+        if d > rad * (1.0 + CONTAIN_TOL) + scale * 1e-13 {
             return Err(format!("sphere {} reaches {:e} > radius {:e}", i, d, rad));
         }
     }
@@ -386,13 +389,25 @@ fn gen_knn(rng: &mut Rng, cubic_only: bool, max_n: usize) -> KnnCase {
     } else {
         DVec3::new(w, w * (0.2 + 3.0 * rng.f64()), w * (0.2 + 3.0 * rng.f64()))
     };
-    let n = 2 + rng.below(max_n as u64 - 1) as usize;
+    // placement families: uniform, clumps, few particles in a fine grid (empty cells
+    // and whole empty rings), lattices (exact distance ties, particles exactly on
+    // cell boundaries), everything in one corner cell
+    let placement = *rng.pick(&["uniform", "uniform", "clustered", "sparse", "lattice", "corner"]);
+    let n = match placement {
+        "sparse" => 2 + rng.below(12) as usize,
+        _ => 2 + rng.below(max_n as u64 - 1) as usize,
+    };
     let mut pts = vec![];
-    let clustered = rng.chance(0.3);
+    let clustered = placement == "clustered";
     let c = DVec3::new(rng.f64(), rng.f64(), rng.f64());
-    for _ in 0..n {
+    let lm = ((n as f64).cbrt().ceil() as usize).max(2);
+    for i in 0..n {
         let u = if clustered && rng.chance(0.7) {
             (c + 0.05 * DVec3::new(rng.sym(), rng.sym(), rng.sym())).clamp(DVec3::ZERO, DVec3::splat(0.999999))
+        } else if placement == "lattice" {
+            DVec3::new((i % lm) as f64, ((i / lm) % lm) as f64, (i / (lm * lm)) as f64) / lm as f64
+        } else if placement == "corner" {
+            0.04 * DVec3::new(rng.f64(), rng.f64(), rng.f64())
         } else {
             DVec3::new(rng.f64(), rng.f64(), rng.f64())
         };
@@ -408,7 +423,17 @@ fn gen_knn(rng: &mut Rng, cubic_only: bool, max_n: usize) -> KnnCase {
         }
         pts.push(p);
     }
-    let frac = *rng.pick(&[1.0, 0.6, 0.34, 0.26, 0.2, 0.11]);
+    {
+        let mut seen = BTreeSet::new();
+        pts.retain(|p| seen.insert([p.x.to_bits(), p.y.to_bits(), p.z.to_bits()]));
+        if pts.len() < 2 {
+            pts.push(anchor + 0.5 * width);
+            pts.push(anchor + 0.25 * width);
+            let mut seen = BTreeSet::new();
+            pts.retain(|p| seen.insert([p.x.to_bits(), p.y.to_bits(), p.z.to_bits()]));
+        }
+    }
+    let frac = if placement == "sparse" { *rng.pick(&[0.26, 0.2, 0.11, 0.11]) } else { *rng.pick(&[1.0, 0.6, 0.34, 0.26, 0.2, 0.11]) };
     // keep the grid small: the search visits O(r^3) cells per ring, so a grid
     // with hundreds of cells along an axis costs minutes without testing more
     let base = if width.max_element() / width.min_element() > 3.0 || rng.chance(0.5) {
@@ -417,9 +442,11 @@ fn gen_knn(rng: &mut Rng, cubic_only: bool, max_n: usize) -> KnnCase {
         width.min_element()
     };
     let max_cell_width = base * frac * (0.9 + 0.2 * rng.f64());
-    let k = match rng.below(4) {
+    let n = pts.len();
+    let k = match rng.below(5) {
         0 => 0,
         1 => n - 1,
+        2 => 1.min(n - 1),
         _ => rng.below(n as u64) as usize,
     };
     KnnCase {
@@ -733,7 +760,8 @@ pub fn cmd_c20(args: &Args) -> i32 {
         // ---- pure clauses: exercised, not simulated ---------------------------
         // Welzl containment on the same set (capped: the recursion is exponential-ish
         // in the worst case but linear in practice), minimality on a small generic subset
-        let wpts: Vec<DVec3> = pts.iter().copied().take(14).collect();
+        let wcap = if rng.chance(0.2) { 120 } else { 14 };
+        let wpts: Vec<DVec3> = pts.iter().copied().take(wcap).collect();
         *pure.entry("welzl_containment".into()).or_insert(0) += 1;
         if let Err(e) = check_welzl(&wpts, false) {
             let payload = J::obj().set("points", pts_json(&wpts)).set("minimal", J::Bool(false));
@@ -789,9 +817,50 @@ pub fn cmd_c20(args: &Args) -> i32 {
         // sphere of spheres
         {
             let ns = 1 + rng.below(30) as usize;
-            let sph: Vec<(DVec3, f64)> = (0..ns)
+            let mut sph: Vec<(DVec3, f64)> = (0..ns)
                 .map(|_| (DVec3::new(rng.sym() * 4.0, rng.sym() * 4.0, rng.sym() * 4.0), 0.01 + rng.f64()))
                 .collect();
+            // structured families: one sphere dominating the others (nested / concentric),
+            // a single sphere, very unequal radii, points (zero radius), far from the origin
+            match rng.below(8) {
+                0 => {
+                    let c = DVec3::new(rng.sym() * 4.0, rng.sym() * 4.0, rng.sym() * 4.0);
+                    let big = 20.0 + 10.0 * rng.f64();
+                    let at = rng.below(sph.len() as u64 + 1) as usize;
+                    sph.insert(at, (c, big));
+                }
+                1 => {
+                    sph.truncate(1);
+                }
+                2 => {
+                    let c = sph[0].0;
+                    for (i, s) in sph.iter_mut().enumerate() {
+                        s.0 = c;
+                        s.1 = 0.1 + i as f64 * 0.37;
+                    }
+                }
+                3 => {
+                    for s in sph.iter_mut() {
+                        s.1 *= 10f64.powf(rng.sym() * 8.0);
+                    }
+                }
+                4 => {
+                    // tiny but positive radii next to ordinary ones (radius > 0 is input
+                    // validity, like pairwise distinct points)
+                    for s in sph.iter_mut() {
+                        if rng.chance(0.5) {
+                            s.1 = 1e-9 * (1.0 + rng.f64());
+                        }
+                    }
+                }
+                5 => {
+                    let o = DVec3::new(1e6, -3e5, 7e5);
+                    for s in sph.iter_mut() {
+                        s.0 += o;
+                    }
+                }
+                _ => {}
+            }
             *pure.entry("sphere_of_spheres".into()).or_insert(0) += 1;
             if let Err(e) = check_spheres(&sph) {
                 let payload = J::obj().set(
